@@ -124,7 +124,7 @@ SCTP_VOID = ["bad-crc", "bad-vtag", "short-packet", "bad-chunk-length", "unknown
              "data-unused-stream-junk", "data-unused-stream-dcep-garbage", "data-unused-stream-bad-utf8",
              "data-unused-stream-middle-fragment", "data-empty-payload", "bundled-void-chunks"]
 SCTP_CHANGING = ["abort", "shutdown", "sack-lying", "forward-tsn-lying", "reconfig-reset-live", "data-live-stream-junk",
-                 "dcep-open-existing", "dcep-ack-unknown"]
+                 "dcep-open-existing", "dcep-ack-unknown", "sack-strikes"]
 RTP_VOID = ["rtp-unknown-ssrc-and-pt", "rtp-short", "rtp-bad-version", "rtp-ext-wrong-lengths", "rtp-ext-two-byte",
             "rtp-padding-extremes", "rtp-csrc-extremes", "rtcp-unknown-ssrc", "rtcp-length-mismatch", "rtcp-count-mismatch",
             "rtcp-truncated", "rtcp-remb-bad-fci", "rtcp-nack-huge", "rtcp-sdes-truncated", "rtcp-bye-weird",
@@ -153,6 +153,15 @@ def gen_hostile(ch, spec):
     # the program: protocol milestones in order, injections sprinkled anywhere
     milestones = ["start_sctp", "open_channel", "start_media", "burst", "burst", "close_channel"]
     ops = [{"op": m} for m in milestones]
+    # in a share of the runs the victim has data of its own in flight when forged acknowledgements arrive: it sends
+    # on its end of the channel (possibly a partially reliable one) and the genuine acknowledgements are slow
+    if ch.chance("cfg", 0.4):
+        cfg["victim_sends"] = True
+        cfg["pr"] = ch.choice("cfg", [None, {"maxRetransmits": 0}, {"maxRetransmits": 0}, {"maxPacketLifeTime": 40}])
+        cfg["ack_delay"] = ch.choice("cfg", [0.0, 0.2, 1.0])
+        for _ in range(ch.choice("cfg", [1, 2, 4])):
+            ops.insert(2 + ch.index("wl", len(ops) - 1), {"op": "victim_burst", "n": ch.choice("wl", [1, 1, 2, 5]),
+                                                        "size": ch.choice("wl", [10, 3000, 5000, 9000])})
     n_inj = ch.choice("wl", [3, 8, 15, 30])
     run = spec.get("run", 0)
     for i in range(n_inj):
@@ -215,6 +224,10 @@ class HostileWorld(MediaBase):
         fab.profiles[("P", "V")] = Profile.from_json(cfg["p2v"])
         fab.class_profiles[("P", "V")] = {"dtls-hs": Profile(base=cfg["base"])}
         fab.profiles[("V", "P")] = Profile(base=cfg["base"])
+        if cfg.get("ack_delay"):
+            # application records from the victim (its data and its acknowledgements) and towards it are slow, so that
+            # the victim's own data is still in flight when a forged acknowledgement lands
+            fab.class_profiles[("V", "P")] = {"dtls-app": Profile(base=cfg["base"] + cfg["ack_delay"], fifo=True)}
         fab.taps.append(self.on_wire)
         self.tool = None
 
@@ -369,7 +382,7 @@ class HostileWorld(MediaBase):
                 self.loop.create_task(self.sctp[n].start(caps, 5000), context=pair.ctx[n])
             self.sctp_started = True
         elif kind == "open_channel" and self.sctp_started and "P" not in self.chan:
-            ch = pair.ctx["P"].run(RTCDataChannel, self.sctp["P"], RTCDataChannelParameters(label="main"))
+            ch = pair.ctx["P"].run(RTCDataChannel, self.sctp["P"], RTCDataChannelParameters(label="main", **(self.cfg.get("pr") or {})))
             ch.on("message", lambda m: self.got["P"].append(m))
             self.chan["P"] = ch
         elif kind == "burst":
@@ -378,6 +391,13 @@ class HostileWorld(MediaBase):
                 for i in range(12):
                     self.counter += 1
                     pair.ctx["P"].run(ch.send, "b%05d " % self.counter + "x" * 2000)
+        elif kind == "victim_burst":
+            ch = self.chan.get("V")
+            if ch is not None and ch.readyState == "open":
+                for i in range(op["n"]):
+                    self.counter += 1
+                    pair.ctx["V"].run(ch.send, "v%05d " % self.counter + "y" * op["size"])
+                self.probes["victim_bursts"] += 1
         elif kind == "close_channel":
             ch = self.chan.get("P")
             if ch is not None and ch.readyState == "open" and not self.sctp_changed:
@@ -502,6 +522,13 @@ class HostileWorld(MediaBase):
                 gaps += struct.pack("!HH", a, b)
             dups = b"".join(struct.pack("!L", r.getrandbits(32)) for _ in range(r.choice([0, 1, 40])))
             return sctp_packet(vt, [chunk(3, 0, struct.pack("!LLHH", cumack, 131072, n, len(dups) // 4) + gaps + dups)]), changing
+        if cls == "sack-strikes":
+            # several acknowledgements in one packet, each reporting the same hole right after the cumulative point:
+            # enough "strikes" to make the victim declare its oldest chunk in flight lost at once
+            p_last = getattr(self.sctp["V"], "_last_sacked_tsn", 0)
+            hi = r.choice([2, 3, 5, 12, 40])
+            one = chunk(3, 0, struct.pack("!LLHH", p_last, 131072, 1, 0) + struct.pack("!HH", 2, hi))
+            return sctp_packet(vt, [one] * r.choice([3, 4, 6])), True
         if cls == "sack-counts-beyond-body":
             p_last = getattr(self.sctp["V"], "_last_sacked_tsn", 0)
             return sctp_packet(vt, [chunk(3, 0, struct.pack("!LLHH", p_last, 131072, r.choice([1, 100, 65535]), r.choice([0, 7, 65535])) + rb(r.choice([0, 3, 4, 6])))]), False
@@ -705,6 +732,9 @@ class HostileWorld(MediaBase):
                 # built relative to the victim's TSN state, which is not settled before the association is up:
                 # by the time it lands the "old" TSN may be ahead, i.e. a lie with a legitimate protocol effect
                 changing = True
+            if cls == "sack-weird-gaps" and self.cfg.get("victim_sends"):
+                # with data of the victim's own in flight a gap block is a claim about that data, not a void datagram
+                changing = True
             self.log.add("inject", cls, len(data), changing)
             if changing:
                 # (also before start: the datagram is in flight and may land right after the association starts)
@@ -813,6 +843,11 @@ class HostileWorld(MediaBase):
                 self.violation("C05", "valid-traffic-stalled:data-channel-does-not-open",
                                "after only void datagrams the channel is %s" % self.chan["P"].readyState)
                 return
+            if self.cfg.get("pr"):
+                # a partially reliable channel may drop what the network loses: the final round trip is judged once
+                # the ordinary faults have stopped
+                self.fabric.heal()
+                await asyncio.sleep(3.0)
             self.counter += 1
             msg = "final-%d" % self.counter
             pair.ctx["P"].run(self.chan["P"].send, msg)
